@@ -359,8 +359,11 @@ impl<'a> Explore<'a> {
             Err(RunErr::Stuck(s)) => {
                 // deadlock / lost wake-up / non-terminating saver: hand over to the pool watchdog with a precise note
                 beat.note(&format!("DEADLOCK-OR-HANG config={} schedule prefix={:?}: {}", self.cfg.name, prefix, s));
+                // spin (burn CPU) so that the pool's CPU-time watchdog attributes the hang quickly
+                let mut x = 0u64;
                 loop {
-                    std::thread::sleep(Duration::from_secs(3600));
+                    x = x.wrapping_add(1);
+                    std::hint::black_box(x);
                 }
             }
         };
